@@ -29,3 +29,35 @@ func verifRoundTripAddressMapArray(w0 io.Writer, r0 io.Reader, x AddressMapArray
 	decErr = y.Decode(r0)
 	return y, nil, decErr
 }
+
+func verifRoundTripPingPongMsg(w0 io.Writer, r0 io.Reader, x PingPongMsg) (y PingPongMsg, encErr, decErr error) {
+	encErr = x.Encode(w0)
+	if encErr != nil {
+		return y, encErr, nil
+	}
+	verifLink(w0, r0)
+	decErr = y.Decode(r0)
+	return y, nil, decErr
+}
+
+func verifRoundTripShutdownMsg(w0 io.Writer, r0 io.Reader, x *ShutdownMsg) (y *ShutdownMsg, encErr, decErr error) {
+	encErr = x.Encode(w0)
+	if encErr != nil {
+		return nil, encErr, nil
+	}
+	verifLink(w0, r0)
+	y = new(ShutdownMsg)
+	decErr = y.Decode(r0)
+	return y, nil, decErr
+}
+
+// The authentication response writes its bytes itself (byte-level lemma, like the ones of package perunio).
+func verifRoundTripAuthResponseMsg(w io.Writer, r io.Reader, x *AuthResponseMsg) (y *AuthResponseMsg, encErr, decErr error) {
+	encErr = x.Encode(w)
+	if encErr != nil {
+		return nil, encErr, nil
+	}
+	y = new(AuthResponseMsg)
+	decErr = y.Decode(r)
+	return y, nil, decErr
+}
